@@ -92,6 +92,7 @@ struct scen {
         unsigned char vmem[6][MAXDS + 4];
         /* environment */
         unsigned char rd_ok[CALLS], rd_ch[CALLS];
+        unsigned char cbt_where, cbt_cmd, cbt_kind;      /* CB_TRIGGER: an event triggered from inside a callback of the first call (0 none, 1 io->read, 2 command/event handler) */
         unsigned char wr_ret[CALLS][4];
         unsigned char hret[2][4];       /* return values of command handlers (per call order) */
         unsigned char hbuf[CAPC_MAX + 1], hnul, hsize[4], hmod;
@@ -112,6 +113,7 @@ static struct {
         struct cat_io_interface io;
         int call;                         /* index of the current cat_service call */
         unsigned reads, writes, hcalls, vcalls;
+        int cbt_done;
         int wr_byte[2], wr_ret[2];
         unsigned hidx, vidx;
         struct cat_mutex_interface mx;
@@ -171,9 +173,26 @@ static int m_unlock(void)
 }
 #define CB_GUARD() do { if (MUTEX && !W.locked) W.cb_unlocked = 1; } while (0)
 
+/* CB_TRIGGER (C15 jobs, no mutex): the application may call cat_trigger_unsolicited_*() from inside a callback - the unit tests do
+ * it from command handlers. One such trigger, in the first call, from io->read or from a handler, on a symbolic command / kind.
+ * Off in audit mode (the queue obligations of C13 describe calls without re-entrant triggers). */
+#if defined(CB_TRIGGER) && !MUTEX && !defined(PROP_ALL)
+static void cb_trigger(int where)
+{
+        if (W.call == 0 && !W.cbt_done && S.cbt_where == where) {
+                W.cbt_done = 1;
+                if (S.cbt_kind & 1) (void)cat_trigger_unsolicited_read(&W.at, (S.cbt_cmd % 3) == 0 ? &W.cmd[0] : (S.cbt_cmd % 3) == 1 ? &W.cmd[1] : &W.cmd[2]);
+                else (void)cat_trigger_unsolicited_test(&W.at, (S.cbt_cmd % 3) == 0 ? &W.cmd[0] : (S.cbt_cmd % 3) == 1 ? &W.cmd[1] : &W.cmd[2]);
+        }
+}
+#else
+#define cb_trigger(where) ((void)0)
+#endif
+
 static int io_read(char *ch)
 {
         CB_GUARD();
+        cb_trigger(1);
         W.reads++;
         /* a finite stream: at most three bytes are available within one call (the code under test reads once per call;
          * a variant that loops over io->read must still terminate here) */
@@ -197,6 +216,7 @@ static cat_return_state env_code(void)
         if (W.hidx == 0) r = (UHRET);
 #endif
         CB_GUARD();
+        cb_trigger(2);
         W.hidx++;
         W.hcalls++;
         return (cat_return_state)r;
@@ -894,7 +914,7 @@ static void scen_run(void)
                          o->unsolicited_fsm.write_buf != SNAP.unsolicited_fsm.write_buf, "event flush at a section end made no progress");
         /* waiting for input is not work: a reading state whose read is refused, with no event queued or in progress, reports OK
          * (otherwise a caller polling "until OK" spins forever on an unterminated line) */
-        if (cmd_reads_input(STATE) && !S.rd_ok[0] && USTATE == CAT_UNSOLICITED_STATE_IDLE && SNAP.unsolicited_fsm.unsolicited_cmd_buffer_items_count == 0)
+        if (cmd_reads_input(STATE) && !S.rd_ok[0] && USTATE == CAT_UNSOLICITED_STATE_IDLE && SNAP.unsolicited_fsm.unsolicited_cmd_buffer_items_count == 0 && !W.cbt_done)
                 CHK(C15, r == CAT_STATUS_OK, "BUSY although the only thing missing is input (no byte available, no event, nothing to emit)");
         if (!cmd_reads_input(STATE) && STATE != CAT_STATE_HOLD && STATE != CAT_STATE_FLUSH_IO_WRITE && STATE != CAT_STATE_FLUSH_IO_WRITE_WAIT &&
             STATE != CAT_STATE_WRITE_LOOP && STATE != CAT_STATE_RUN_LOOP && STATE != CAT_STATE_READ_LOOP && STATE != CAT_STATE_TEST_LOOP)
@@ -945,6 +965,7 @@ static void scen_sample(void)
         unsigned i;
         rnd_bytes((unsigned char *)&S, sizeof(S));
         S.bufsize = (unsigned char)(BUFSZ > 0 ? BUFSZ : SEP ? 6 + rnd(CAPC_MAX - 5) : 12 + rnd(2 * CAPC_MAX + 1 - 11));
+        S.cbt_where = (unsigned char)rnd(3);
         S.ubsize = (unsigned char)rnd(UB + 1);
         for (i = 0; i < NCMD; i++) { S.fl[i] = (unsigned char)(rnd(3) ? 0 : rnd(16)); S.hm[i] = (unsigned char)(rnd(3) ? 15 : rnd(16)); if (S.fl[i] & 4) S.hm[i] &= 1; }
         S.fl[0] &= ~4; S.fl[1] &= ~4;
